@@ -48,6 +48,50 @@ def main(out):
       if isinstance(obj, type) and hasattr(obj, "_shape_") and hasattr(obj, "_wp_scalar_type_") and name not in res["vectypes"] and getattr(obj, "__module__", "").startswith("mujoco_warp"):
         shape = tuple(int(x) for x in obj._shape_)
         res["vectypes"][name] = {"shape": shape, "dtype": "f" if "float" in obj._wp_scalar_type_.__name__ else "i"}
+  # runtime types of the scalar (non-array) fields of Model / Option / Statistic / Data on a few fixture models:
+  # C36 needs to know which fields are plain python values (hashed by value by cache_kernel) and which are numpy
+  # scalars (which have `.size` and would all be keyed as 1)
+  try:
+    import mujoco
+    import mujoco_warp as mjw
+
+    ft = {}
+    base = os.path.join(os.path.dirname(os.path.dirname(S.__file__)), "test_data")
+    xmls = [os.path.join(base, x) for x in ("pendula.xml", "constraints.xml", "collision.xml", os.path.join("humanoid", "humanoid.xml"))]
+    xmls.append("<mujoco><option cone='elliptic'/><worldbody><geom type='plane' size='1 1 .1'/><body pos='0 0 .1'><freejoint/><geom size='.1' condim='6'/></body></worldbody></mujoco>")
+
+    def walk(prefix, obj, depth=0):
+      import dataclasses
+
+      if not dataclasses.is_dataclass(obj) or depth > 2:
+        return
+      for f in dataclasses.fields(obj):
+        try:
+          v = getattr(obj, f.name)
+        except Exception:
+          continue
+        if dataclasses.is_dataclass(v):
+          walk(prefix + "." + f.name, v, depth + 1)
+          continue
+        tn = type(v).__name__
+        if isinstance(v, enum.Enum):
+          tn = "enum"
+        if hasattr(v, "shape") and getattr(v, "ndim", 0) > 0 or tn in ("array", "tuple", "list", "dict", "NoneType"):
+          continue
+        ft.setdefault(prefix + "." + f.name, set()).add(tn)
+
+    for x in xmls:
+      try:
+        mjm = mujoco.MjModel.from_xml_path(x) if os.path.exists(x) else mujoco.MjModel.from_xml_string(x)
+        m = mjw.put_model(mjm)
+        d = mjw.make_data(mjm)
+        walk("m", m)
+        walk("d", d)
+      except Exception:
+        continue
+    res["field_types"] = {k: sorted(v) for k, v in ft.items()}
+  except Exception as e:
+    res["field_types_error"] = str(e)[:300]
   # BlockDim defaults (dataclass of ints) are launch parameters, not semantics: skipped.
   import mujoco
 
